@@ -96,7 +96,7 @@ def run(out, prop, tier, seed, only_slices=None):
             hists = rnd.sample(hists, cap)
         traces, raw = [], {}
         for i, h in enumerate(hists):
-            evs = replay_history(h, via_compiler=(i % 25 == 0), scratch=scratch)
+            evs = replay_history(h, via_compiler=(i % 5 == 0), scratch=scratch)
             if evs is None:
                 continue
             out.evaluations += 1
@@ -143,7 +143,7 @@ def run(out, prop, tier, seed, only_slices=None):
         from checks import clitools
         clitools.run_dump(out, prop, tier, seed, only_slices=['report-json', 'stub-json'], only_formulas=('IndexOnlyDefines', 'IndexCovers'))
     out.assumptions += ['TLC + Json module trusted', 'per-module summaries are handed to genIndex as MibStatus objects built by the harness',
-                        'every 25th history goes through MibCompiler.buildIndex with a real FileWriter (index read back from disk)']
+                        'every 5th history goes through MibCompiler.buildIndex with a real FileWriter (index read back from disk)']
 
 
 def _string_prefix_witness(t):
